@@ -123,6 +123,14 @@ theorem pv_was_ego (threads : List (List Op)) (sched : List ThreadId) (p : Pkt)
 
 example : ((final [[.ego 5], [.shb 1]] [1, 0, 0, 1, 0]).sent.map (·.pv)) = [0] := by decide +kernel
 
+/-- … which rests on the refresh being ONE store (`source_single_publication`): the lock of the section does not help,
+the readers take none.  A refresh that stores an intermediate vector 7 and then the fix 5 inside the same
+`ego_position_vector_lock` section, pre-empted between the two stores by an SHB origination: the packet carries 7, which
+no refresh ever published -/
+theorem pv_was_ego_witness :
+    let s := (run (mkSys ({} : St) [twoStoreRefresh 7 5, compile (.shb 1)]) [0, 0, 1, 1, 0, 0]).sh
+    s.sent.map (·.pv) = [7] ∧ s.egoHist = [5, 0] := by decide +kernel
+
 /-! ## Location service -/
 
 def noPurge (threads : List (List Op)) : Prop := ∀ ops ∈ threads, ∀ op ∈ ops, op.isPurge = false
@@ -217,6 +225,22 @@ theorem ls_exactly_once_witness :
 
 /-- the same history on the code as it is now loses nothing -/
 example : (final [[.guc 1 1 9 true, .purge 9, .guc 2 2 9 true]] (List.replicate 80 0)).lsBuf 9 = [1, 2] := by decide +kernel
+
+/-- what the retransmit-counter test of the registration section buys (`source_ls_guard`): WITHOUT it
+(`gucNoCounter`: in-progress iff the LocTE exists and is flagged) request 1 is lost although no purge of a flagged
+placeholder ever happens – thread 0 is pre-empted between `ensure_entry` and `ls_pending = True`, thread 1's
+refresh_table drops the still unflagged placeholder, thread 0 flags the orphan and buffers request 1, thread 2 finds no
+LocTE, starts a second lookup and overwrites the buffer -/
+theorem ls_exactly_once_counter_witness :
+    (run (mkSys ({} : St) [gucNoCounter 1 1 9, compile (.refresh []), gucNoCounter 2 2 9])
+      (List.replicate 13 0 ++ List.replicate 5 1 ++ List.replicate 40 0 ++ List.replicate 40 2)).sh.lsLost 9 = [1] := by
+  decide +kernel
+
+/-- the same threads and schedule on the code as it is: both requests wait behind the ONE lookup -/
+example :
+    (final [[.guc 1 1 9 true], [.refresh []], [.guc 2 2 9 true]]
+      (List.replicate 13 0 ++ List.replicate 5 1 ++ List.replicate 40 0 ++ List.replicate 40 2)).lsBuf 9 = [1, 2] := by
+  decide +kernel
 
 /-- the window between sending the LS request and storing its timer: a reply handled in that window leaves a live,
 uncancelled retransmit timer behind (spurious retransmissions; no request is lost – `ls_exactly_once`). -/
@@ -380,6 +404,15 @@ theorem no_thread_fails_witness :
        compile (.cbfArrive 2 7)])
       (List.replicate 8 0 ++ List.replicate 3 1 ++ List.replicate 8 2 ++ List.replicate 3 1)).sh.err = 1 := by decide +kernel
 
+/-- the third statement that can raise on shared state: the neighbour scan of `get_neighbours` (dict iterator).  Inside
+its `loc_t_lock` section (`source_locte_blocks`; one atomic block by `sections_atomic`) it cannot
+(`scan_in_section`); WITHOUT the lock an origination that scans the table (thread 0) fails as soon as a GeoUnicast to an
+unknown destination (thread 1) lets `ensure_entry` insert the location-service placeholder between two steps of the scan -/
+theorem no_thread_fails_scan_witness :
+    (run (mkSys ({} : St) [scanUnlocked 1, compile (.guc 2 2 9 true)]) ([0] ++ List.replicate 40 1 ++ [0])).sh.err = 1 ∧
+    (run (mkSys ({} : St) [scanLocked 1, compile (.guc 2 2 9 true)])
+      ([0, 0] ++ List.replicate 40 1 ++ [0, 0] ++ List.replicate 40 1)).sh.err = 0 := by decide +kernel
+
 /-! ## Tie to the source (re-exported obligations; see `RouterConc` for the individual block lists) -/
 
 theorem source_lock_map :
@@ -399,6 +432,19 @@ theorem source_blocks :
     Generated.Locks.shape .Router_refresh_ego_position_vector =
       [([.Router_ego_position_vector_lock], [.Router_ego_position_vector])] :=
   ⟨blocks_get_sequence_number, blocks_cbf_timeout, blocks_refresh_ego⟩
+
+/-- the ego position vector is published by exactly ONE store per refresh (and rebound nowhere else after construction) -/
+theorem source_single_publication :
+    Generated.Locks.rebindCount .Router_refresh_ego_position_vector .Router_ego_position_vector = 1 ∧
+    (Generated.Locks.rebinds.all fun r => r.2.1 != .Router_ego_position_vector ||
+      r.1 == .Router_refresh_ego_position_vector || r.1 == .Router_setup_gn_address) = true := ego_single_store
+
+/-- the registration section of gn_ls_request tests the retransmit counters (a lookup in progress is recognised even when
+its placeholder LocTE is not in the table) -/
+theorem source_ls_guard :
+    ((Generated.Locks.blocks .Router_gn_ls_request).head?.map fun b =>
+      b.1 == [.Router__ls_lock] && b.2.contains (.Router__ls_retransmit_counters, .read) &&
+        b.2.contains (.Router__ls_retransmit_counters, .write)) = some true := ls_request_checks_counter
 
 /-- the LocTE life cycle: refresh_table / get_neighbours / get_entry / ensure_entry are single `loc_t_lock` sections and
 the seven `new_*_packet` functions have the section shape `rxProg` assumes (see `RouterConc.blocks_new_packet`) -/
